@@ -116,6 +116,9 @@ def run(cx):
                         kk = strip_identity(key)
                         ok = ok and kk[0] == "named" and kk[1].endswith("WAIT_NANOS_HEADER") and kk[2] == '"wait-nanos"'
                         pieces = format_term(co, o, val)
+                        vs_ = strip_identity(val)
+                        if pieces is None and vs_[0] == "call" and name_matches(vs_[1], ("alloc::string::ToString::to_string", "string::ToString::to_string")):
+                            pieces = [("to_string", vs_[2][0])]         # `n.to_string()` == `format!("{}", n)`
                         ok = ok and pieces is not None and len(pieces) == 1 and isinstance(pieces[0], tuple)
                         if ok:
                             v = strip_identity(pieces[0][1])
